@@ -90,6 +90,9 @@ def make_cases(hists: list[dict], tier: str, seed: int) -> tuple[list[dict], int
                     "npath": npath(st["op"]["sel"], st["op"]["path"]), "vtext": _val(st["op"]["v"], 0),
                     "model_res": st["res"], "model_why": st["why"]} for st in h["steps"]]
             cases.append({"id": len(cases) + 1, "text": text, "wrap": w, "ops": ops})
+            if not w and len(d0["layers"]) >= 2 and any(o["sel"] > 0 for o in ops):
+                # the same history on the document with an own-line comment after every `in' (layer trivia)
+                cases.append({"id": len(cases) + 1, "text": render_doc(d0, in_comments=True), "wrap": w, "ops": ops})
     return cases, discards
 
 
